@@ -244,7 +244,10 @@ def dense_inputs(rng, in_shape, r):
     must not select another code path with another result)"""
     base = rng.integers(-8, 9, size=in_shape).astype(float)
     out = [("dense integers", base), ("scaled 1e-12", base * 1e-12), ("scaled 1e+9", base * 1e9),
-           ("constant", np.full(in_shape, 3.0)), ("zeros", np.zeros(in_shape))]
+           ("constant", np.full(in_shape, 3.0)), ("zeros", np.zeros(in_shape)),
+           # integer-valued fields stored with an integer dtype (coordinates of a grid given with integer parameters,
+           # masks, counters): the derivative is a float field all the same
+           ("dense integers, dtype int64", base.astype(np.int64)), ("dense integers, dtype int32", base.astype(np.int32))]
     if r >= 2:
         S = base + np.swapaxes(base, 0, 1)
         A = rng.integers(-8, 9, size=in_shape).astype(float)
@@ -309,7 +312,7 @@ def operator_probe(ctx, budget):
                 {"site": "operator-probe", "op": kind[:2], "input": label, "history": bool(hist)}) else 0
         inputs = dense_inputs(nprng, in_shape, r)
         for label, f in inputs:
-            found += check(label, f, op(f.copy()), "")
+            found += check(label, f.astype(float), op(f.copy()), "")
         # histories on the same operator object and the same buffer
         buf = inputs[0][1].copy()
         r1 = op(buf)
